@@ -489,6 +489,101 @@ Fixpoint pending (newest_first : list rop) (t : Z) : option (Z * Z) :=
       end
   end.
 
+(* ---- client-side timeouts on top of the routing (ClientTimeoutSink + MuxSocketTransportSink._HandleTimeout +
+        KafkaTransportSink._OnTimeout) ----
+   TTimeout k: the deadline of caller k's request fired after the request had been written: the caller gets
+     TimeoutError, its sink stack is consumed, timeout_proc calls KafkaTransportSink._OnTimeout(tag), which does
+     nothing: Kafka cannot cancel an in-flight request, the broker still owes a reply, so the tag stays in the map.
+     (Also: a deadline already in the past when the call is made: TimeoutError at once, nothing is sent.)
+   TUnsent k tag: the deadline fired while the frame was still in the send queue: _HandleTimeout drops the frame
+     and releases the tag (the broker never sees the request).
+   A reply routed to a caller whose stack was already consumed by its timeout is forwarded to an empty sink stack:
+     nothing is visible (ODeadReply). *)
+Inductive top :=
+| TOp (op : rop)
+| TTimeout (stack : Z)
+| TUnsent (stack tag : Z).
+
+Inductive tobs :=
+| TO (o : robs)
+| OTimedOut (stack : Z)
+| ODeadReply (stack : Z).
+
+Definition tstate := (rstate * list Z)%type.      (* tag map, callers that already got their TimeoutError *)
+
+Definition is_dead (dead : list Z) (k : Z) : bool := existsb (Z.eqb k) dead.
+
+Definition hide (dead : list Z) (o : robs) : tobs :=
+  match o with
+  | ODeliver k r => if is_dead dead k then ODeadReply k else TO o
+  | _ => TO o
+  end.
+
+Definition tstep (cid : text) (st : tstate) (op : top) : tstate * tobs :=
+  let '(m, dead) := st in
+  match op with
+  | TOp o => let '(m', ob) := rstep cid m o in ((m', dead), hide dead ob)
+  | TTimeout k => ((m, k :: dead), OTimedOut k)
+  | TUnsent k tag => ((dict_remove Z.eqb m tag, k :: dead), OTimedOut k)
+  end.
+
+Fixpoint trun (cid : text) (st : tstate) (ops : list top) : list tobs :=
+  match ops with
+  | [] => []
+  | op :: r => let '(st', o) := tstep cid st op in o :: trun cid st' r
+  end.
+
+Definition tstate_after (cid : text) (ops : list top) : tstate :=
+  fold_left (fun st op => fst (tstep cid st op)) ops ([], []).
+
+(* admissibility of the recorded tag choices: TagPool.get() never hands out a tag that is still in the tag map *)
+Fixpoint tags_fresh (cid : text) (st : tstate) (ops : list top) : bool :=
+  match ops with
+  | [] => true
+  | op :: r =>
+      match op with
+      | TOp (RSend _ tag c) =>
+          match registers c, dict_get Z.eqb (fst st) tag with
+          | Some _, Some _ => false
+          | _, _ => true
+          end
+      | _ => true
+      end && tags_fresh cid (fst (tstep cid st op)) r
+  end.
+
+(* the history as the tag map sees it: timeouts of written requests leave no trace *)
+Fixpoint erase (ops : list top) : list rop :=
+  match ops with
+  | [] => []
+  | TOp o :: r => o :: erase r
+  | TTimeout _ :: r => erase r
+  | TUnsent _ _ :: r => erase r
+  end.
+Fixpoint timed_out (ops : list top) : list Z :=       (* newest first *)
+  match ops with
+  | [] => []
+  | TOp _ :: r => timed_out r
+  | TTimeout k :: r => timed_out r ++ [k]
+  | TUnsent k _ :: r => timed_out r ++ [k]
+  end.
+Definition no_unsent (ops : list top) : Prop :=
+  Forall (fun op => match op with TUnsent _ _ => False | _ => True end) ops.
+
+(* what a caller can see *)
+Inductive visible :=
+| VSent (f : bytes) | VSerError (k : Z) | VRaise | VDeliver (k : Z) (r : option reply) | VTimeout (k : Z) | VNothing.
+Definition vis (o : tobs) : visible :=
+  match o with
+  | TO (OSent f) => VSent f
+  | TO (OSerError k) => VSerError k
+  | TO OSendRaise => VRaise
+  | TO (ODeliver k r) => VDeliver k r
+  | TO ODrop => VNothing
+  | TO OReplyRaise => VRaise
+  | OTimedOut k => VTimeout k
+  | ODeadReply _ => VNothing
+  end.
+
 (* an operation that neither registers a request under correlation id t nor answers t *)
 Definition quiet (t : Z) (op : rop) : Prop :=
   match op with
@@ -546,6 +641,16 @@ Definition summarize (r : request) : rsum :=
 Definition msum_eqb (a b : msum) : bool :=
   let '(o, m, t, k, v) := a in let '(o', m', t', k', v') := b in
   (o =? o') && (m =? m') && (t =? t') && (k =? k') && (v =? v').
+Definition visible_eqb (a b : visible) : bool :=
+  match a, b with
+  | VSent x, VSent y => zlist_eqb x y
+  | VSerError x, VSerError y => x =? y
+  | VRaise, VRaise => true
+  | VDeliver k r, VDeliver k' r' => (k =? k') && option_eqb reply_eqb r r'
+  | VTimeout x, VTimeout y => x =? y
+  | VNothing, VNothing => true
+  | _, _ => false
+  end.
 Definition rsum_eqb (a b : rsum) : bool :=
   let '(k, v, c, cl, p, mt) := a in let '(k', v', c', cl', p', mt') := b in
   (k =? k') && (v =? v') && (c =? c') && obytes_eqb cl cl' &&
@@ -569,7 +674,10 @@ Inductive case :=
 | CProduceResp (r : option (list presp_topic)) (corr raw : bytes) (mtype : Z) (expect : option reply)
 | CMetadataResp (r : option mresp) (corr raw : bytes) (mtype : Z) (expect : option reply)
 (* KafkaSerializerSink -> KafkaTransportSink pipeline driven with sends and replies *)
-| CRoute (cid : text) (ops : list rop) (expect : list robs).
+| CRoute (cid : text) (ops : list rop) (expect : list robs)
+(* ClientTimeoutSink -> KafkaSerializerSink -> KafkaTransportSink with its real send/receive loops, a fake broker and a
+   virtual clock: what every caller saw after each step *)
+| CTransport (cid : text) (ops : list top) (expect : list visible).
 
 Definition check_case (c : case) : bool :=
   match c with
@@ -595,6 +703,7 @@ Definition check_case (c : case) : bool :=
       match r with Some x => zlist_eqb (enc_metadata_response x) raw | None => true end &&
       option_eqb reply_eqb (deserialize mtype (corr ++ raw)) e
   | CRoute cid ops e => list_eqb robs_eqb (rrun cid [] ops) e
+  | CTransport cid ops e => tags_fresh cid ([], []) ops && list_eqb visible_eqb (map vis (trun cid ([], []) ops)) e
   end.
 
 (* what the model computes, for the replay file *)
@@ -604,7 +713,8 @@ Inductive explanation :=
 | XParse (p : option rsum)
 | XCrc (ca cab cwhole : Z)
 | XReply (enc : option bytes) (r : option reply)
-| XRoute (o : list robs).
+| XRoute (o : list robs)
+| XTransport (o : list tobs).
 
 Definition explain_case (c : case) : explanation :=
   match c with
@@ -617,4 +727,5 @@ Definition explain_case (c : case) : explanation :=
   | CProduceResp r corr raw mtype _ => XReply (option_map enc_produce_response r) (deserialize mtype (corr ++ raw))
   | CMetadataResp r corr raw mtype _ => XReply (option_map enc_metadata_response r) (deserialize mtype (corr ++ raw))
   | CRoute cid ops _ => XRoute (rrun cid [] ops)
+  | CTransport cid ops _ => XTransport (trun cid ([], []) ops)
   end.
